@@ -57,7 +57,8 @@ def hintOf (pa : Int × Bytes) : Option (Option Int × S2K.Hint) :=
   else if pa.1 = 11 then
     match decodePrefix Rfc.etypeInfo pa.2 with
     | some (.list (e :: _)) =>
-      some ((fld e 0) >>= asInt, { kind := .info, salt := ((fld e 1) >>= asBytes).getD [], params := none })
+      some ((fld e 0) >>= asInt, { kind := .info, salt := ((fld e 1) >>= asBytes).getD [], params := none,
+                                   etype := (fld e 0) >>= asInt })
     | _ => none
   else if pa.1 = 19 then
     match decodePrefix Rfc.etypeInfo2 pa.2 with
@@ -65,7 +66,8 @@ def hintOf (pa : Int × Bytes) : Option (Option Int × S2K.Hint) :=
       some ((fld e 0) >>= asInt, { kind := .info2, salt := ((fld e 1) >>= asBytes).getD [],
                                    params := (match (fld e 2) >>= asBytes with
                                               | some p => if p.length = 4 then some p else none
-                                              | none => none) })
+                                              | none => none),
+                                   etype := (fld e 0) >>= asInt })
     | _ => none
   else none
 
@@ -78,10 +80,11 @@ def passwordKey (P : Prims) (pw : Bytes) (chars : List Nat) (cname : List Bytes)
   match hs.mapM hintOf with
   | none => none                                  -- a hint that does not decode (or is empty): error
   | some hints =>
-    -- an entry naming another etype makes Go derive the key for that etype: not a reply this client can open
-    if hints.any (fun h => match h.1 with | some e => e ≠ (et.id : Int) | none => false) then none
+    let sel := S2K.Impl.select (hints.map (·.2))
+    -- the hint that takes precedence naming another etype makes Go derive the key with that etype's
+    -- string-to-key: not a reply this client can open (hints of lower precedence do not matter)
+    if (match sel.etype with | some e => decide (e ≠ (et.id : Int)) | none => false) then none
     else
-      let sel := S2K.Impl.select (hints.map (·.2))
       let salt := if sel.salt = [] then realm ++ cname.flatten else sel.salt
       let iters : Option Nat :=
         match sel.params with
